@@ -20,7 +20,9 @@ ZH_POOLS = {
     'number': (['', '负', '第'], ['三百二十一', '12', '１２', '一千零五', '3.5', '百分之五', '两万', '十几', '1,234', '三分之一']),
     'percentage': (['', '大约'], ['百分之五', '5%', '百分之十二点五', '１２％']),
     'currency': (['', '$', '人民币', '约'], ['五十元', '300美圆', '20', '五元', '３００美元', '20美元']),
-    'dimension': (['', '约'], ['五公里', '3米', '十二公斤', '5 km']),
+    'dimension': (['', '约'], ['五公里', '3米', '十二公斤', '5 km', '三斤半', '三斤苹果和半个西瓜', '两米，再加半米']),
+    'age': (['', '哥哥'], ['三岁', '三岁半', '三岁,吃了半个', '10周岁', '两岁的弟弟和半岁的妹妹']),
+    'temperature': (['', '大约'], ['三十度', '30摄氏度', '零下五度半', '五度,半小时后']),
     'datetime': (['', '从', '在', '明天'], ['明天', '下周五', '2019年5月6日', '三点半', '5月6日下午3点', '昨天晚上', '2018年', '三天后', '1月到3月', '周一到周五']),
 }
 POOLS = {
@@ -64,6 +66,10 @@ def _recognize(kind, q):
         from recognizers_date_time import recognize_datetime
         from datetime import datetime
         return recognize_datetime(q, CULTURE, reference=datetime(2019, 4, 23, 8, 30))
+    elif kind == 'age':
+        from recognizers_number_with_unit import recognize_age as f
+    elif kind == 'temperature':
+        from recognizers_number_with_unit import recognize_temperature as f
     elif kind == 'number':
         from recognizers_number import recognize_number as f
     else:
@@ -144,7 +150,7 @@ def _unit_model_with_monitor(kind):
     later one comes from a later extractor/parser pair and lies inside or across the earlier one (decided on the recorded spans)"""
     from recognizers_number_with_unit.number_with_unit.number_with_unit_recognizer import NumberWithUnitRecognizer
     rec = NumberWithUnitRecognizer(CULTURE)
-    model = {'currency': rec.get_currency_model, 'dimension': rec.get_dimension_model}[kind]()
+    model = {'currency': rec.get_currency_model, 'dimension': rec.get_dimension_model, 'age': rec.get_age_model, 'temperature': rec.get_temperature_model}[kind]()
     seen = {}
     for idx, item in enumerate(model.extractor_parser):
         ex = item.extractor
@@ -154,10 +160,25 @@ def _unit_model_with_monitor(kind):
             def extract(source, _real=real, _ex=ex):
                 out = _real(source)
                 _ex._verif_last = [(e.start, e.start + e.length - 1) for e in out]
+                # (entity span, absolute span of its number) -- e.data is the number with a start relative to the entity
+                _ex._verif_nums = [((e.start, e.start + e.length - 1), (e.start + e.data.start, e.start + e.data.start + e.data.length - 1))
+                                   for e in out if getattr(e, 'data', None) is not None and hasattr(e.data, 'start')]
                 return out
             ex.extract = extract
             ex._verif_rec = True
     return model
+
+
+def _attribute_f41(model):
+    """known finding F41: within ONE extractor, the suffix unit of an entity swallows the numeral of the next entity (zh: 两 is both the
+    unit liang and the numeral two).  Attributed only when the later entity's number starts inside the earlier entity but after the
+    earlier entity's own number."""
+    for item in model.extractor_parser:
+        nums = getattr(item.extractor, '_verif_nums', [])
+        for (sx, nx) in nums:
+            for (sy, ny) in nums:
+                if sx != sy and nx[1] < ny[0] <= sx[1] and sy[0] <= sx[1]:
+                    F36.append((sx, sy))
 
 
 def _attribute_f36(model):
@@ -227,10 +248,11 @@ def h_compose(a: int, b: int, c: int, d: int):
         if CULTURE == 'zh-cn':
             _install_zh_add_mod_monitor()
     del F36[:]
-    if CULTURE == 'zh-cn' and KIND in ('currency', 'dimension'):
+    if CULTURE == 'zh-cn' and KIND in ('currency', 'dimension', 'age', 'temperature'):
         model = _unit_model_with_monitor(KIND)
         rs = model.parse(q)
         _attribute_f36(model)
+        _attribute_f41(model)
     else:
         rs = _recognize(KIND, q)
     if F37:
